@@ -54,6 +54,51 @@ def judge(d, hv, cases, listed):
     return viols, known, dict(harness_s=round(hdt, 1), monitor_s=round(mdt, 1), retried_after_deadline=retried)
 
 
+def describe_ready(c):
+    return "[legacy readiness] " + json.dumps(c, sort_keys=True)
+
+
+def run_ready(tier, d, replay_case=None):
+    """legacy readiness rules (spec/Ready.tla) on the real ReadyChecker: returns (violations, coverage)"""
+    hv = vlib.build_hv("hv_ready")
+    cases_file = os.path.join(d, "ready_cases.ndjson")
+    gen = dist = 0
+    if replay_case is not None:
+        with open(cases_file, "w") as f:
+            f.write(json.dumps({"case": replay_case, "want": ""}) + "\n")
+    else:
+        if os.path.exists(cases_file):
+            os.remove(cases_file)
+        cfg = "MC_Ready.cfg" if tier == "quick" else "MC_Ready_thorough.cfg"
+        rc, out, dt = vlib.tlc(d, "MC_Ready.tla", cfg, workers=4, timeout=1800)
+        err = vlib.tlc_failed(out)
+        if err:
+            log("MODEL: %s reported: %s" % (cfg, err))
+            raise Inconclusive("the readiness specification violates its own invariants (%s)" % cfg)
+        gen, dist, depth = vlib.tlc_stats(out)
+    n = sum(1 for _ in open(cases_file))
+    rc, out, hdt = vlib.sh([hv, "ready_cases.ndjson", "ready_obs.ndjson"], cwd=d, timeout=1800, check=False)
+    if rc != 0:
+        raise Inconclusive("hv_ready failed (%d):\n%s" % (rc, out[-2000:]))
+    obs = [json.loads(l) for l in open(os.path.join(d, "ready_obs.ndjson"))]
+    if len(obs) != n:
+        raise Inconclusive("hv_ready wrote %d observations for %d cases" % (len(obs), n))
+    rc, out, mdt = vlib.tlc(d, "ReadyObs.tla", "ReadyObs.cfg", workers=1, timeout=1800)
+    err = vlib.tlc_failed(out)
+    g2, d2, _ = vlib.tlc_stats(out)
+    if err or d2 != n + 1:
+        raise Inconclusive("ReadyObs did not judge all %d observations (%s, %d states):\n%s" % (n, err, d2, out[-2000:]))
+    m = re.search(r'<<"READYHARNESS", (\d+), "([^"]*)">>', out)
+    if m:
+        raise Inconclusive("the readiness harness could not run case %s: %s" % (m.group(1), m.group(2)))
+    viols = []
+    for m in re.finditer(r'<<"READYVIOL", (\d+), "([A-Za-z]+)", "([a-z]+)", "([a-z]+)">>', out):
+        i = int(m.group(1)) - 1
+        viols.append(("C03_LegacyReady", obs[i]["case"], dict(want=m.group(3), got=m.group(4), err=obs[i].get("err", ""))))
+    kinds = collections.Counter(o["case"]["kind"] for o in obs)
+    return viols, dict(cases=n, tlc_states=dist, kinds=dict(kinds), harness_s=round(hdt, 1), monitor_s=round(mdt, 1))
+
+
 def run_sub(pid, tier, seed, d, replay_case=None):
     """returns (violations [(check, case, observation)], known Counter, coverage dict)"""
     listed = {k["id"] for k in vlib.load_known() if k.get("status", "known") == "known"}
